@@ -187,7 +187,55 @@ func (c *Ctx) a3Loop(l *mapLoop) []a3Finding {
 			if readInLoopAsCond {
 				out = append(out, a3Finding{"A3.1", "loop-carried flag " + name, "a flag set in one iteration of a range over a Go map is read in later iterations: the outcome depends on the (randomised) iteration order", ph, "bad"})
 			} else {
-				out = append(out, a3Finding{"", "loop-carried flag " + name, "monotone flag, only read after the loop", ph, "ok"})
+				// monotone: every value that flows back is the flag itself or one and the same constant (or flag || x)
+				monotone := true
+				consts := map[string]bool{}
+				offender := ""
+				seenV := map[ssa.Value]bool{}
+				var walk func(v ssa.Value)
+				walk = func(v ssa.Value) {
+					if seenV[v] {
+						return
+					}
+					seenV[v] = true
+					switch x := v.(type) {
+					case *ssa.Phi:
+						if x == ph {
+							return
+						}
+						if aliases[x] || l.body[x.Block()] {
+							for _, e := range x.Edges {
+								walk(e)
+							}
+							return
+						}
+						monotone, offender = false, short(org(x))
+					case *ssa.Const:
+						if x.Value != nil {
+							consts[x.Value.String()] = true
+						}
+					case *ssa.BinOp:
+						if (x.Op == token.OR || x.Op == token.LOR || x.Op == token.AND || x.Op == token.LAND) && (aliases[x.X] || aliases[x.Y]) {
+							return
+						}
+						monotone, offender = false, short(org(x))
+					default:
+						monotone, offender = false, short(org(v))
+					}
+				}
+				for i, e := range ph.Edges {
+					if l.header.Dominates(l.header.Preds[i]) || l.body[l.header.Preds[i]] && l.header.Preds[i] != l.header {
+						walk(e)
+					}
+				}
+				if len(consts) > 1 {
+					monotone, offender = false, "both true and false"
+				}
+				if monotone {
+					out = append(out, a3Finding{"", "loop-carried flag " + name, "monotone flag, only read after the loop", ph, "ok"})
+				} else {
+					out = append(out, a3Finding{"A3.1", "loop-carried flag " + name, "the flag is overwritten in every iteration (" + offender + "): after a range over a Go map it holds the outcome of whichever element happened to be visited last", ph, "bad"})
+				}
 			}
 		case isSlice(t):
 			reason, listed := a3AccumTable[fn]
